@@ -298,7 +298,7 @@ def render_entries(entries, src_text_of, indent='  ') -> str:
     """Concrete FILE-LIST source text (one FILE-SPEC per line)."""
     lines = []
     for kind, name, mod, contents in entries:
-        head = '%s%s %s' % (indent, kind, name if name != '' else "''")
+        head = '%s%s %s' % (indent, kind, ("'%s'" % name) if (name == '' or ':' in name or ';' in name) else name)
         if mod is None:
             lines.append(head)
         elif kind == 'file':
@@ -418,11 +418,11 @@ def os_services():
 _INSTR_CACHE: Dict = {}
 
 
-def parse_instruction(kind: str, text: str):
+def parse_instruction(kind: str, text: str, cache: bool = True):
     """Parses `text` (the arguments of the instruction) with the REAL instruction parser of
     `exists` (assert phase) / `dir` (setup phase).  Cached on the concrete text."""
     key = (kind, text)
-    if key not in _INSTR_CACHE:
+    if not cache or key not in _INSTR_CACHE:
         from exactly_lib.section_document.parse_source import ParseSource
         from exactly_lib.section_document.source_location import FileSystemLocationInfo, FileLocationInfo
         import pathlib
@@ -439,5 +439,34 @@ def parse_instruction(kind: str, text: str):
         instr = parser.parse(fsl, src)
         if not src.is_at_eof:
             raise ValueError('harness error: instruction parser left %r unconsumed' % src.remaining_source)
+        if not cache:
+            return instr
         _INSTR_CACHE[key] = instr
     return _INSTR_CACHE[key]
+
+
+# --------------------------------------------------------------------------- tracer suspension
+
+class _Null:
+    def __enter__(self):
+        return self
+
+    def __exit__(self, *a):
+        return False
+
+
+def untraced():
+    """Context manager: suspends CrossHair's byte-code tracer (no-op on plain CPython / in replay).
+
+    Used ONLY by the [selector] kernels, and only after every symbolic selector has been made a
+    concrete Python int (ob.concrete_int / ob.pick fork the path per value BEFORE this point), so
+    that everything executed inside is a function of concrete data only: the real code then runs
+    natively (about 200x faster) and CrossHair's role is the exhaustive enumeration of the selector
+    space.  No symbolic value may be live inside the block."""
+    try:
+        from crosshair.tracers import NoTracing, is_tracing
+    except ImportError:
+        return _Null()
+    if not is_tracing():
+        return _Null()
+    return NoTracing()
